@@ -64,23 +64,32 @@ class JsonSchemaGenerator:
             enum_type = None
             enum_values = []
             enum_map = {}
+            member_types = set()
             for key, val in t.__members__.items():
                 enum_values.append(val.value)
                 enum_map[key] = val.value
                 enum_type = type(val.value)
+                member_types.add(enum_type)
             if not isinstance(base, EnumMeta):
                 enum_type = base
-            prim = self._get_primitive(enum_type)
-            fmt = self._get_format(enum_type)
+                member_types = {base}
             data = {
-                "type": prim,
                 "enum": enum_values,
                 "x-annotation": {
                     "enums": enum_map
                 }
             }
-            if fmt:
-                data.update(format=fmt)
+            prims = {self._get_primitive(mt) for mt in member_types}
+            if len(prims) == 1:
+                # (a type only when every member value has the same one)
+                data = dict(type=prims.pop(), **data)
+                fmt = self._get_format(enum_type)
+                if fmt and len(member_types) == 1:
+                    data.update(format=fmt)
+            import enum
+            if issubclass(t, enum.Flag):
+                # combinations of flags are members as well
+                data.pop("enum")
             return data
 
         # default common type
@@ -196,6 +205,12 @@ class JsonSchemaGenerator:
                 break
         for constraint, value, validator in t.__validators__:
             constraint_name = constrains_map.get(constraint, constraint)
+            if isinstance(value, EnumMeta):
+                # enum = <Enum class>
+                value = [member.value for member in value]
+            elif hasattr(value, "pattern") and hasattr(value, "fullmatch"):
+                # a compiled regex
+                value = value.pattern
             data[constraint_name] = value
 
         extra = getattr(t, 'extra', None)
@@ -355,10 +370,12 @@ class JsonSchemaGenerator:
             data.update(dependentRequired=dependent_required)
         addition = options.addition
         if addition is not None:
-            if isinstance(addition, type):
-                data.update(additionalProperties=self.generate_for_type(addition))
-            else:
+            if isinstance(addition, bool):
                 data.update(additionalProperties=addition)
+            else:
+                # a type (also a typing generic or a late name): what the parser converts additions to
+                addition_type = getattr(parser, "addition_type", None) or addition
+                data.update(additionalProperties=self.generate_for_type(addition_type))
 
         annotations = parser.schema_annotations
         if annotations:
